@@ -47,7 +47,7 @@ Proof.
         destruct (IH now h2s Wh2 ltac:(lia)) as (h2' & tx2 & ok2 & E3 & S3).
         pose proof (next_sound f now now h2s h2' tx2 ok2 Wh2 (or_introl Sh2) E3) as (Wh2' & Sh2' & _).
         rewrite E3. cbn [bind].
-        destruct (negb ok2 && (1 <? length (h2 :: r2))%nat).
+        destruct (negb ok2 && (1 <? length (h :: h2 :: r2))%nat).
         -- assert (Wc : wf (Comp (h2' :: r2) (tl (la_of (h :: h2 :: r2))) true)).
            { cbn [la_of tl]. apply wf_comp; auto; discriminate. }
            destruct (IH now _ Wc) as (s' & t & ok & E4 & S4).
